@@ -1279,7 +1279,14 @@ class AgProtocol(utils.EventEmitter):
                 handler_name = f'_on_{command.code.lower()}'
 
             if handler := getattr(self, handler_name, None):
-                handler(*command.parameters)
+                try:
+                    handler(*command.parameters)
+                except (TypeError, ValueError):
+                    # Unexpected number of parameters, or a parameter that is
+                    # not what the handler expects: the command still needs a
+                    # final result code.
+                    logger.exception('Handler %s failed', handler_name)
+                    self.send_error()
             else:
                 logger.warning('Handler %s not found', handler_name)
                 self.send_response('ERROR')
